@@ -23,7 +23,7 @@ Definition get_ctype : dec ctype :=
   (t <- get_n ;; ret (match t with 0 => THttp | 1 => TTlsAlpn | 2 => TDns | _ => TOther end)).
 Definition get_chal : dec chal :=
   (t <- get_ctype ;; tok <- get_str ;; ka <- get_str ;; ip <- get_bool ;; id <- get_str ;;
-   rv <- get_opt get_str ;; ret (Chal t tok ka ip id rv)).
+   ipb <- get_opt get_str ;; ret (Chal t tok ka ip id (rev_of_ip ipb))).
 Definition get_place : dec place :=
   (t <- get_n ;; ret (match t with 0 => WLocal | 1 => WRemote | _ => WMem end)).
 Definition get_op : dec cop :=
